@@ -109,3 +109,129 @@ def all_functions(tree):
             for m in n.body:
                 if isinstance(m, ast.FunctionDef):
                     yield n.name + "." + m.name, m
+
+
+# ---------------------------------------------------------------------------------- interprocedural part
+def _direct_collectives(fnode):
+    for n in ast.walk(fnode):
+        if isinstance(n, ast.Call) and isinstance(n.func, ast.Attribute) and n.func.attr in COLLECTIVES and \
+                isinstance(n.func.value, ast.Name) and n.func.value.id == "comm":
+            yield n
+
+
+def _guard_param(fnode, node, par):
+    """If `node` sits under `if <p>:` (or `if <p> and ...`) for a parameter p of fnode with a constant default, return p."""
+    pnames = [a.arg for a in fnode.args.args]
+    cur, child = par.get(id(node)), node
+    while cur is not None and cur is not fnode:
+        if isinstance(cur, ast.If) and child in cur.body:
+            t = cur.test
+            cands = [t] + (list(t.values) if isinstance(t, ast.BoolOp) and isinstance(t.op, ast.And) else [])
+            for c in cands:
+                if isinstance(c, ast.Name) and c.id in pnames:
+                    return c.id
+        child, cur = cur, par.get(id(cur))
+    return None
+
+
+def may_collect_table(trees):
+    """trees: {modname: ast.Module}.  Returns {(mod, func): guard} where guard is None (always may execute collectives)
+    or the name of the boolean parameter that switches every collective of the function on."""
+    funcs = {}
+    for mod, tree in trees.items():
+        for name, f in all_functions(tree):
+            funcs[(mod, name)] = f
+    table = {}
+    for key, f in funcs.items():
+        par = _parents(f)
+        guards = set()
+        anyc = False
+        for c in _direct_collectives(f):
+            anyc = True
+            guards.add(_guard_param(f, c, par))
+        if anyc:
+            table[key] = guards.pop() if len(guards) == 1 else None
+    changed = True
+    while changed:
+        changed = False
+        for key, f in funcs.items():
+            if key in table and table[key] is None:
+                continue
+            for n in ast.walk(f):
+                if isinstance(n, ast.Call):
+                    tgt = _resolve(n, key[0], funcs)
+                    if tgt is None or tgt not in table or tgt == key:
+                        continue
+                    if not _call_collects(n, funcs[tgt], table[tgt]):
+                        continue
+                    if key not in table or table[key] is not None:
+                        table[key] = None
+                        changed = True
+    return table, funcs
+
+
+def _resolve(call, mod, funcs):
+    d = _dotted(call.func)
+    if d is None:
+        return None
+    parts = d.split(".")
+    if len(parts) == 1 and (mod, parts[0]) in funcs:
+        return (mod, parts[0])
+    if len(parts) == 2 and (parts[0], parts[1]) in funcs:
+        return (parts[0], parts[1])
+    return None
+
+
+def _call_collects(call, callee, guard):
+    """Does this call site execute the callee's collectives?  guard None: yes; otherwise only if the guard argument may be true."""
+    if guard is None:
+        return True
+    names = [a.arg for a in callee.args.args]
+    val = None
+    for kw in call.keywords:
+        if kw.arg == guard:
+            val = kw.value
+    if val is None and guard in names:
+        idx = names.index(guard)
+        if idx < len(call.args):
+            val = call.args[idx]
+    if val is None:
+        # default value
+        nd = len(callee.args.defaults)
+        idx = names.index(guard) - (len(names) - nd)
+        if 0 <= idx < nd:
+            val = callee.args.defaults[idx]
+    if isinstance(val, ast.Constant) and not val.value:
+        return False
+    return True
+
+
+def call_alignment(trees):
+    """Every call of a function that may execute collectives is itself reached under rank-invariant control."""
+    table, funcs = may_collect_table(trees)
+    out = []
+    for key, f in funcs.items():
+        ana = None
+        par = None
+        for n in ast.walk(f):
+            if not isinstance(n, ast.Call):
+                continue
+            tgt = _resolve(n, key[0], funcs)
+            if tgt is None or tgt not in table or not _call_collects(n, funcs[tgt], table[tgt]):
+                continue
+            if ana is None:
+                ana = taint.analyse(f, seeds=("rank",))
+                par = _parents(f)
+            ok, why = True, ""
+            cur, child = par.get(id(n)), n
+            while cur is not None and cur is not f:
+                if isinstance(cur, (ast.If, ast.While)) and child is not cur.test and ana.cond.get(id(cur), False):
+                    ok, why = False, "under a rank-dependent condition at line %d" % cur.lineno
+                if isinstance(cur, ast.For) and child is not cur.iter and ana.cond.get(id(cur), False):
+                    ok, why = False, "inside a loop with a rank-dependent trip count at line %d" % cur.lineno
+                if isinstance(cur, ast.ExceptHandler):
+                    ok, why = False, "inside an exception handler"
+                child, cur = cur, par.get(id(cur))
+            out.append((key, "call of %s.%s (executes MPI collectives) at line %d is reached under rank-invariant control%s" % (
+                tgt[0], tgt[1], n.lineno, (" -- " + why) if why else ""), ok, n.lineno))
+    return out
